@@ -135,6 +135,11 @@ def files(f4_witness=False, name_collision=False):
                                         G.F("trees", 5, T.TYPE_MESSAGE, label=G.REPEATED, type_name=P + ".Tree")])
     add_map(ub, f"{PKG}.UsesOther", "m", 6, "STRING", "MESSAGE", P + ".Scalars")
     add_map(ub, f"{PKG}.UsesOther", "ek", 7, "STRING", "ENUM", P + ".Outer.Mid.Kind")
+    # a NESTED message whose field is called like the sibling module its type comes from (only the nested message uses that name)
+    hold = G.add_message(b, "Holder")
+    G.add_message(hold, "Inner", [G.F("shapes", 1, T.TYPE_MESSAGE, type_name=P + ".Scalars"), G.F("c", 2, T.TYPE_ENUM, type_name=P + ".Color"),
+                                  G.F("t", 3, T.TYPE_MESSAGE, type_name=P + ".Tree")])
+    hold.field.append(G.F("i", 1, T.TYPE_MESSAGE, type_name=P + ".Holder.Inner"))
     svc = G.add_service(b, "Lab")
     G.add_method(svc, "Get", P + ".UsesOther", P + ".Scalars", http=("get", "/v1/things"))
     # files whose base name equals the base name of the dependency file they take a type from
@@ -399,6 +404,60 @@ def _reserved():
     """The generator's own reserved-word list is not consulted: the statement says `reserved words` - Python keywords (the only names that
     cannot be attributes); builtins that the generator also suffixes are accepted either way."""
     return RESERVED_EXTRA
+
+
+def subpackage_names():
+    """A target file in a sub-package of the API: its classes carry the full names of the input descriptors (package of the FILE, not of the API) -
+    what google.protobuf.Any and JSON type URLs compare.  The module is loaded by path (the package __init__ of such layouts is C01's subject)."""
+    import importlib.util, os
+    from vf import genlab as G
+    from google.protobuf import any_pb2, descriptor_pool, message_factory
+    T = G.T
+    root = G.new_file("acme/lab/v1/base.proto", PKG)
+    G.add_message(root, "Base", [G.F("x", 1, T.TYPE_STRING)])
+    sub = G.new_file("acme/lab/v1/storage/shelf.proto", PKG + ".storage")
+    en = sub.enum_type.add(name="Grade")
+    en.value.add(name="GRADE_UNSPECIFIED", number=0); en.value.add(name="FINE", number=1)
+    G.add_message(sub, "Slot", [G.F("n", 1, T.TYPE_INT32)])
+    G.add_message(sub, "Shelf", [G.F("name", 1, T.TYPE_STRING), G.F("slot", 2, T.TYPE_MESSAGE, type_name=f".{PKG}.storage.Slot"),
+                                 G.F("grade", 3, T.TYPE_ENUM, type_name=f".{PKG}.storage.Grade")])
+    failures = []
+    try:
+        api, res = G.generate([root, sub], "autogen-snippets=false")
+    except Exception as e:      # noqa
+        return {"cases": 1, "failures": [{"what": "generation failed for an API with a types-only sub-package", "error": repr(e)[:200]}]}
+    with G.materialised(res) as rootdir:
+        path = os.path.join(rootdir, "acme/lab_v1/storage/types/shelf.py")
+        if not os.path.exists(path):
+            return {"cases": 1, "failures": [{"what": "no types module for the sub-package file", "want": "acme/lab_v1/storage/types/shelf.py"}]}
+        spec = importlib.util.spec_from_file_location("verif_subpkg_shelf", path)
+        mod = importlib.util.module_from_spec(spec)
+        import sys
+        sys.modules[spec.name] = mod            # proto-plus finds the module manifest through sys.modules
+        try:
+            spec.loader.exec_module(mod)
+        except Exception as e:      # noqa
+            return {"cases": 1, "failures": [{"what": "the types module of the sub-package file does not load", "error": repr(e)[:200]}]}
+        for name in ("Slot", "Shelf"):
+            cls = getattr(mod, name)
+            got = cls.pb(cls()).DESCRIPTOR.full_name
+            if got != f"{PKG}.storage.{name}":
+                failures.append({"what": "runtime full name differs from the input descriptor's", "message": f"{PKG}.storage.{name}", "generated": got})
+        # Any round trip against a dynamic message of the input descriptor
+        pool = descriptor_pool.DescriptorPool()
+        for fp in G.dep_files() + [root, sub]:
+            pool.Add(fp)
+        dyn = message_factory.GetMessageClass(pool.FindMessageTypeByName(f"{PKG}.storage.Shelf"))(name="s1")
+        a = any_pb2.Any()
+        a.Pack(dyn)
+        try:
+            target = mod.Shelf.pb(mod.Shelf())
+            if not a.Unpack(target) or target.name != "s1":
+                failures.append({"what": "an Any packed under the input descriptor does not unpack into the generated class", "type_url": a.type_url,
+                                 "generated_full_name": target.DESCRIPTOR.full_name})
+        except Exception as e:      # noqa
+            failures.append({"what": "Any unpack raised", "error": repr(e)[:200]})
+    return {"cases": 3, "failures": failures}
 
 
 def scenarios():
